@@ -43,3 +43,38 @@ Print Assumptions C02_eddsa_split_join.
 
 Example C02_der_premises : der_ok 255 /\ dsa_from_signer (der_seq2 255 1) = Some (255, 1).
 Proof. split; [split; [lia|vm_compute; reflexivity]|vm_compute; reflexivity]. Qed.
+
+(* ---------- signer, export, parser and verifier composed (in the model) ---------- *)
+Require Import PV.Model.SigCompose PV.Proofs.SigCompose_lemmas.
+
+(* every packet the signer model assembles from well-formed subpackets is accepted by the parser model with exactly
+   the fields, hashed area, left 16 bits and signature integers it was made from ... *)
+Theorem C02_sign_body_parses : forall digest pk_sign,
+  (forall h d, wf_bytes (digest h d) /\ (2 <= length (digest h d))%nat) ->
+  (forall priv d h, wf_bytes (pk_sign priv d h)) ->
+  forall t pk h hashed unhashed priv subj body,
+  wf_area hashed -> wf_area unhashed ->
+  sign_body digest pk_sign t pk h hashed unhashed priv subj = Some body ->
+  exists s, sig_body_parse body = Some s /\
+    fields_of s = {| sf_ver := 4; sf_type := t; sf_pkalg := pk; sf_halg := h; sf_hashed := area_emit hashed |} /\
+    exists d, hashdata (fields_of s) subj = Some d /\ sg_hash2 s = firstn 2 (digest h d) /\ sg_mpis s = pk_sign priv d h.
+Proof. intros digest pk_sign. exact (sign_body_parses digest pk_sign (fun _ _ _ _ => true)). Qed.
+Print Assumptions C02_sign_body_parses.
+
+(* ... and verifies, provided the primitive verifies what it signed (a premise on the primitive, not an axiom) *)
+Theorem C02_sign_export_parse_verify : forall digest pk_sign pk_verify,
+  (forall h d, wf_bytes (digest h d) /\ (2 <= length (digest h d))%nat) ->
+  (forall priv d h, wf_bytes (pk_sign priv d h)) ->
+  (forall (priv pub d : bytes) (h : Z), pk_verify pub d (pk_sign priv d h) h = true) ->
+  forall t pk h hashed unhashed priv pub subj body,
+  wf_area hashed -> wf_area unhashed ->
+  sign_body digest pk_sign t pk h hashed unhashed priv subj = Some body ->
+  exists s, sig_body_parse body = Some s /\ verify_pair pk_verify pub 0 false s subj = Some 0.
+Proof. exact sign_export_parse_verify. Qed.
+Print Assumptions C02_sign_export_parse_verify.
+
+Example C02_wf_area_inhabited : wf_area [ {| sp_type := 2; sp_crit := false; sp_body := [95; 0; 0; 1] |} ].
+Proof.
+  split; [|vm_compute; reflexivity]. constructor; [|constructor].
+  unfold wf_subp. cbn [sp_type sp_body length]. split; [lia|]. split; [vm_compute; reflexivity|]. repeat (constructor; [lia|]). constructor.
+Qed.
